@@ -73,7 +73,7 @@ def run(ctx):
         out = ctx.go_test("internal/repository", "^TestVerif_C38$", timeout=3000, env={"VERIF_VECTORS": vec})
         des = [f.result() for f in futs]
 
-    n, bad, lines = ctx.check_records("Cache", os.path.join(out, "recs.ndjson"), shard=4000)
+    n, bad, lines = ctx.check_records("Cache", os.path.join(out, "recs.ndjson"), shard=7000 if not ctx.thorough() else 12000)
     for i in bad[:200]:
         r = json.loads(lines[i - 1])
         if r["kind"] == "script":
